@@ -1098,11 +1098,21 @@ func (ls *LState) callR(nargs, nret, rbase int) {
 		ls.RaiseError("C stack overflow")
 	}
 	ls.nccalls++
-	if ls.G.MainThread == nil {
+	if ls.G.MainThread == nil && ls.Parent == nil {
 		ls.G.MainThread = ls
 		ls.G.CurrentThread = ls
 		ls.mainLoop(ls, nil)
 	} else {
+		if ls.G.MainThread == nil {
+			// the first call ever happens inside a coroutine that Go code resumed before
+			// anything ran on the main state: the main thread is the bottom of the chain
+			// of resumers, not this thread
+			root := ls
+			for root.Parent != nil {
+				root = root.Parent
+			}
+			ls.G.MainThread = root
+		}
 		ls.mainLoop(ls, ls.currentFrame)
 	}
 	ls.nccalls--
